@@ -1,7 +1,7 @@
 """rpyc/utils/classic.py -> Gen_classic.v : the skeletons of upload/upload_file/upload_dir and
 download/download_file/download_dir as `Files.skel` values (which side every filesystem operation goes to,
 open modes, the statements of the chunk loop, the filter guard, the recursive call's arguments).
-Everything else about the six functions is pinned by the templates below (fail closed) and by shape snapshots."""
+Everything else about the six functions is pinned by the templates below (fail closed)."""
 from .core import *
 
 SRC = "rpyc/utils/classic.py"
@@ -181,9 +181,6 @@ def translate(repo):
             items.append(typed(fam + "_skel", "skel", "{| sk_top := %s;\n  sk_file := %s;\n  sk_dir := %s |}" % (top, fil, dr)))
         except Unrecognised as e:
             items.append(Item("!" + fam + "_skel", "failed", text=str(e)))
-    for nm in ("upload", "upload_file", "upload_dir", "download", "download_file", "download_dir"):
-        try:
-            items.append(shape(nm, func_shape(find_func(tree, nm))))
-        except Unrecognised as e:
-            items.append(Item("!" + nm, "failed", text=str(e)))
+    # no shape snapshots: the templates above match every statement of the six functions (only the text of the
+    # ValueError message is free), so an unrecognised edit already fails closed as a missing *_skel definition
     return items
